@@ -144,13 +144,17 @@ Proof.
     change (plen_of b) with (len (payload b)). rewrite ztake_app, zdrop_app.
     unfold payload at 1. replace (pb_codec b =? 0) with false by lia. rewrite decomp_law.
     unfold bind at 1, set_lrem. cbn [m_stack m_empty m_elast set_stack set_rd fst snd f_base f_count f_hdr f_in f_remain].
-    Show. unfold stp. f_equal. f_equal. f_equal. f_equal. lia. }
+    unfold st, set_stack, set_rd, stp. cbn [m_stack m_empty m_lrem m_elast fst snd f_in f_remain f_base f_count f_hdr].
+    repeat f_equal; lia. }
   fold (vhdr b (plen_of b)). fold (hdr_of b). rewrite Hprep. clear Hprep.
-  rewrite Hrecs at 1. unfold erecs at 1. cbn [enc_records flat_map]. fold (erecs b rs').
+  replace (erecs b (pb_recs b)) with (enc_record (pb_base b) (pb_ts b) r ++ erecs b rs')
+    by (unfold erecs; rewrite Hrecs; reflexivity).
   unfold hdr_of, vhdr.
-  rewrite record_ok_g by (try assumption; lia).
-  unfold msg_fields, ret, msg_of. f_equal. f_equal. f_equal.
-  unfold erecs. rewrite Hrecs. cbn [enc_records flat_map]. rewrite len_app. lia.
+  rewrite record_ok_g; try assumption; try lia.
+  rewrite len_app.
+  replace (len (enc_record (pb_base b) (pb_ts b) r) + len (erecs b rs') - len (enc_record (pb_base b) (pb_ts b) r))
+    with (len (erecs b rs')) by lia.
+  unfold msg_fields, ret, msg_of. reflexivity.
 Qed.
 
 Lemma msr_read_enter_short fuel mn b q c lr el :
